@@ -313,6 +313,9 @@ harnesses! {
     a11_next_n5,      unwind = 8,  raw = 14, |r| check_attr_step::<5>(r, 1);
     a11_skipvalue_n5, unwind = 8,  raw = 14, |r| check_attr_step::<5>(r, 2);
     a11_skipeq_n8,    unwind = 11, raw = 17, |r| check_attr_step::<8>(r, 3);
+    a11_skipeq_canon_n8, unwind = 11, raw = 17, |r| check_attr_step::<8>(r, 4);
+    a11_skipvalue_canon_n5, unwind = 8, raw = 14, |r| check_attr_step::<5>(r, 5);
+    a11_skipvalue_canon_n6, unwind = 9, raw = 15, |r| check_attr_step::<6>(r, 5);
     a11_done_n3,      unwind = 6,  raw = 12, |r| check_attr_step::<3>(r, 0);
     a11_next_n7,      unwind = 10, raw = 16, |r| check_attr_step::<7>(r, 1);
 
@@ -374,6 +377,12 @@ harnesses! {
     h2_pi_n3,    unwind = 6, raw = 5,  |r| check_helper::<3, 1, 0>(r, 2, C02, 0);
     h2_text_n3,  unwind = 6, raw = 5,  |r| check_helper::<3, 1, 0>(r, 0, C02, 0);
     k_bang_split_n7, unwind = 9, raw = 10, |r| check_bang_split::<7>(r);
+    #[kani::stub(alloc::string::String::from_utf8, string_from_utf8_unchecked_stub)]
+    x10_esc_full_c4, unwind = 4, raw = 1, |r| check_escape_lead(r, 0, false);
+    #[kani::stub(alloc::string::String::from_utf8, string_from_utf8_unchecked_stub)]
+    x10_esc_full_e280, unwind = 5, raw = 1, |r| check_escape_lead(r, 0, true);
+    #[kani::stub(alloc::string::String::from_utf8, string_from_utf8_unchecked_stub)]
+    x10_esc_min_c4, unwind = 4, raw = 1, |r| check_escape_lead(r, 2, false);
     #[kani::stub(core::str::from_utf8, from_utf8_ascii)]
     #[kani::stub(alloc::string::String::from_utf8, string_from_utf8_ascii)]
     x10_unescape_n2, unwind = 5, raw = 3, |r| check_unescape::<2>(r);
